@@ -58,6 +58,8 @@ def gen(seed, tier):
             yield {"prop": PROP, "op": "pos", "t": f, "c": c, "ref": True}
             for sp in range(0, len(f)):
                 yield {"prop": PROP, "op": "pos", "t": f, "c": c, "sp": sp, "ref": True}
+                # getPayloadRef with the same shortcut: the handle must be the payload stored at c
+                yield {"prop": PROP, "op": "pos", "t": f, "c": c, "sp": sp, "ref": True, "via": "payload"}
     # short exhaustive-ish histories on a tiny tree: every pair of ops over 2 points
     pts = [[0], [1], [2]]
     alphabet = []
@@ -95,7 +97,12 @@ def run(case):
         side = {}
         meth = f.getPositionRef if case.get("ref") else f.getPosition
         try:
-            if "sp" in case:
+            if case.get("via") == "payload":
+                h = f.getPayloadRef(case["c"], start_pos=case["sp"])
+                case["impl"] = H.pos_of(f.payloads, h)      # where the handle is stored (identity)
+                if case["impl"] < 0:
+                    case["impl"] = None
+            elif "sp" in case:
                 case["impl"] = meth(case["c"], start_pos=case["sp"])
             else:
                 case["impl"] = meth(case["c"])
